@@ -5,8 +5,9 @@
 //! was constructed (never after what the code answered).
 use bio::alphabets::Alphabet;
 use bio::data_structures::bwt::{bwt, less, Occ};
+use bio::data_structures::bwt::{Less, BWT};
 use bio::data_structures::suffix_array::{
-    lcp, shortest_unique_substrings, suffix_array, suffix_array_int, SuffixArray,
+    lcp, shortest_unique_substrings, suffix_array, suffix_array_int, SampledSuffixArray, SuffixArray,
 };
 use bio_verif_harness::{bytes, i64s, usizes, Log, Rng};
 use serde_json::json;
@@ -86,6 +87,49 @@ fn run_bytes(log: &mut Log, tag: &str, text: &[u8], plan: &Plan) {
             if k > 64 && (n - 1) / k as usize >= 1 {
                 log.oblige("sample_occ_rate_gt64");
             }
+        }
+        // re-sampling: the trait's `sample` called on an already sampled array (rate s1, then s2), and
+        // a Serialize/Deserialize round trip of the owned sampled array (and of BWT, less, Occ) before
+        // it is asked; every index is compared with the full array as above
+        let h = text.iter().map(|&c| c as usize).sum::<usize>() + n;
+        const PAIRS: [(usize, usize); 12] =
+            [(1, 2), (1, 3), (2, 4), (2, 6), (3, 6), (4, 8), (2, 3), (3, 2), (4, 6), (3, 4), (2, 2), (6, 3)];
+        let mut pairs: Vec<(usize, usize)> = vec![PAIRS[h % 12], PAIRS[(h / 12 + 5) % 12]];
+        if n <= 8 {
+            pairs.push(PAIRS[(h / 3 + 1) % 6]); // a multiple pair for every small text
+        }
+        let k0 = plan.samples[0].1;
+        for &(s1, s2) in &pairs {
+            log.call("sample", json!({"sa": usizes(&sa), "s": s2, "k": k0, "own": 1, "s1": s1, "serde": 0}), || {
+                let occ = Occ::new(&b, k0, &alphabet);
+                let first = sa.sample(text, b.clone(), l.clone(), occ.clone(), s1);
+                let smp = first.sample(text, &b, &l, &occ, s2);
+                let v: Vec<usize> = (0..smp.len()).map(|i| smp.get(i).unwrap_or(usize::MAX >> 34)).collect();
+                let oob = smp.get(n).map(|x| x as i64).unwrap_or(-1);
+                json!({"v": usizes(&v), "oob": oob})
+            });
+            log.oblige(if s2 % s1 == 0 { "resample_multiple_rate" } else { "resample_non_multiple_rate" });
+            if multi && s2 % s1 == 0 && s2 > s1 {
+                log.oblige("resample_multiple_rate_multi_sentinel");
+            }
+        }
+        let (s0, _, _) = plan.samples[plan.samples.len() - 1];
+        let s0 = if s0 < 2 { 2 } else { s0 };
+        log.call("sample", json!({"sa": usizes(&sa), "s": s0, "k": k0, "own": 1, "s1": 0, "serde": 1}), || {
+            let rt_b: BWT = serde_json::from_str(&serde_json::to_string(&b).unwrap()).unwrap();
+            let rt_l: Less = serde_json::from_str(&serde_json::to_string(&l).unwrap()).unwrap();
+            let rt_o: Occ = serde_json::from_str(&serde_json::to_string(&Occ::new(&b, k0, &alphabet)).unwrap()).unwrap();
+            let rt_sa: Vec<usize> = serde_json::from_str(&serde_json::to_string(&sa).unwrap()).unwrap();
+            let smp = rt_sa.sample(text, rt_b, rt_l, rt_o, s0);
+            let js = serde_json::to_string(&smp).unwrap();
+            let smp: SampledSuffixArray<BWT, Less, Occ> = serde_json::from_str(&js).unwrap();
+            let v: Vec<usize> = (0..smp.len()).map(|i| smp.get(i).unwrap_or(usize::MAX >> 34)).collect();
+            let oob = smp.get(n).map(|x| x as i64).unwrap_or(-1);
+            json!({"v": usizes(&v), "oob": oob})
+        });
+        log.oblige("serde_roundtrip_sampled_sa");
+        if multi {
+            log.oblige("serde_roundtrip_sampled_sa_multi_sentinel");
         }
     }
 }
